@@ -8,6 +8,8 @@ import copy
 import io
 import warnings
 
+import numpy as np
+
 from . import repo as R
 
 POLLING, COMPARISON, ONEAUDIT = "POLLING", "CARD_COMPARISON", "ONEAUDIT"
@@ -351,9 +353,19 @@ def gen_contest(rng, cid, audit_type, kinds=None, shared_names=False):
 
 
 # --------------------------------------------------------------------------- builders (real objects)
+def _flag(v, how):
+    """a true/false value as the caller's tooling produced it: a Python bool, a numpy bool (a column of an array), 0/1"""
+    if how == "numpy":
+        return np.bool_(bool(v))
+    if how == "int":
+        return int(bool(v))
+    return bool(v)
+
+
 def mk_cvr(ns, spec):
-    return ns.CVR(id=spec["id"], votes=copy.deepcopy(spec.get("votes", {})), phantom=bool(spec.get("phantom", False)),
-                  tally_pool=spec.get("tally_pool"), pool=bool(spec.get("pool", False)),
+    how = spec.get("flag_type", "bool")
+    return ns.CVR(id=spec["id"], votes=copy.deepcopy(spec.get("votes", {})), phantom=_flag(spec.get("phantom", False), how),
+                  tally_pool=spec.get("tally_pool"), pool=_flag(spec.get("pool", False), "numpy" if how == "numpy" else "bool"),
                   sample_num=spec.get("sample_num"), card_in_batch=spec.get("card_in_batch"))
 
 
@@ -370,7 +382,8 @@ def mk_audit(ns, world):
         "error_rate_2": world.get("error_rate_2", 0.0),
         "reps": world.get("reps"),
         "max_cards": world.get("max_cards"),
-        "strata": {"stratum_1": {"max_cards": world.get("max_cards"), "use_style": bool(world["use_style"]),
+        "strata": {"stratum_1": {"max_cards": world.get("max_cards"),
+                                 "use_style": _flag(world["use_style"], world.get("style_flag_type", "bool")),
                                  "replacement": False}},
     })
 
@@ -444,7 +457,8 @@ def spec_test(ns, cs, asn, u):
     if cs["choice_function"] in (PLURALITY, APPROVAL):
         kw["g"] = cs.get("g", 0.1)
     t = ns.NonnegMean(test=test_fn(ns, cs["test"]), estim=estim_fn(ns, cs.get("estim")), bet=bet_fn(ns, cs.get("bet")),
-                      u=ub, N=asn.test.N, t=1 / 2, random_order=True, **kw)
+                      u=ub, N=(int(asn.contest.cards) if asn.contest.cards is not None else asn.test.N), t=1 / 2,
+                      random_order=True, **kw)
     if cs.get("random_order") is False:
         t.random_order = False
     t.u = u
